@@ -65,6 +65,7 @@ type Ten struct {
 	Table     []string `json:"table"`
 	Hdr       string   `json:"hdr"`
 	SignedFor string   `json:"signedFor"`
+	NoDefault bool     `json:"noDefault"` // the upstream port has a tenant table but no default key
 }
 
 type Tgt struct {
@@ -333,9 +334,17 @@ func (w *world) hits() int {
 }
 
 func newWorld(c Conf, tenants []config.TenantConfig, endpoints []string) (*world, error) {
+	return newWorldOpt(c, tenants, endpoints, false)
+}
+
+func newWorldOpt(c Conf, tenants []config.TenantConfig, endpoints []string, noDefaultUpstream bool) (*world, error) {
 	w := &world{conf: c, routes: map[string][]string{}}
 	ac := authConfig(c)
-	n1, err := psim.StartNode(psim.NodeOpts{ID: "n1", Auth: ac, Tenants: tenants})
+	o1 := psim.NodeOpts{ID: "n1", Auth: ac, Tenants: tenants}
+	if noDefaultUpstream {
+		o1.UpstreamAuth = &auth.Config{}
+	}
+	n1, err := psim.StartNode(o1)
 	if err != nil {
 		return nil, err
 	}
@@ -750,6 +759,10 @@ func main() {
 			for _, h := range []string{"", "t1", "t2", "tx"} {
 				for _, sfor := range []string{"default", "t1", "t2"} {
 					tens = append(tens, Ten{Table: table, Hdr: h, SignedFor: sfor})
+					if len(table) > 0 {
+						// the natural multi-tenant set-up: tenants only, no default key on the upstream port
+						tens = append(tens, Ten{Table: table, Hdr: h, SignedFor: sfor, NoDefault: true})
+					}
 				}
 			}
 		}
@@ -812,7 +825,7 @@ func tenantCases(c Conf, tens []Ten, emit func(*Step)) {
 	secrets := map[string][]byte{"default": hmacConf, "t1": []byte("tenant-one-secret"), "t2": []byte("tenant-two-secret")}
 	worlds := map[string]*world{}
 	for _, tn := range tens {
-		key := strings.Join(tn.Table, ",")
+		key := strings.Join(tn.Table, ",") + fmt.Sprint(tn.NoDefault)
 		w, ok := worlds[key]
 		if !ok {
 			var tcs []config.TenantConfig
@@ -820,7 +833,7 @@ func tenantCases(c Conf, tens []Ten, emit func(*Step)) {
 				tcs = append(tcs, config.TenantConfig{ID: id, Auth: auth.Config{HMACSecretKey: string(secrets[id])}})
 			}
 			var err error
-			w, err = newWorld(c, tcs, nil)
+			w, err = newWorldOpt(c, tcs, nil, tn.NoDefault)
 			if err != nil {
 				fmt.Fprintln(os.Stderr, "aeng: start tenants:", err)
 				os.Exit(2)
